@@ -306,6 +306,11 @@ def run_world(rng, res, idx):
             compute = True
             res.count('world_rollbacks_into_live_preconditioner')
         spec['history'] = [('train',)] * c + [('rollback' if rollback else 'load', compute)] + [('train',)] * (T - c)
+        if stale_c and T > c and cfg['idt'] == 'float64':
+            # the factors of the last step are read back (once, at the very end) to scale the tolerance of the cross-strategy
+            # comparison below by the conditioning
+            spec['record'] = ['factors']
+            spec['readback_steps'] = [T - 1]
         run = scenario.run(spec, W, seed=seed + c, policy=simdist.POLICIES[(idx + c) % len(simdist.POLICIES)])
         if run.inconclusive:
             res.inconclusive.append('simulator watchdog fired')
@@ -332,10 +337,11 @@ def run_world(rng, res, idx):
                         return res.violation(f'checkpoint at boundary {c} on {W} ranks (k={cfg["k"]}, F={F}, I={I}): rank {r} gradient at step {t} differs from the uninterrupted run by {e:.3e}', case, c=c)
                 if r > 0 and not torch.equal(a, run.results[0]['grads'][t]):
                     return res.violation(f'checkpoint at boundary {c}: after resuming, rank {r} and rank 0 disagree at step {t}', case, c=c)
-        if not must_equal and T > c and cfg['idt'] == 'float64':
+        if not must_equal and T > c and cfg['idt'] == 'float64' and spec.get('record') == ['factors']:
             # (float64 second-order data only: strategies legitimately differ by rounding of the inverse dtype times the
-            # conditioning - e.g. a symmetric broadcast re-symmetrises an inverse that MEM-OPT uses as computed - and a
-            # fixed 1e-6 was a false alarm for float32 inverses on the first seed sweep)
+            # conditioning - e.g. a symmetric broadcast re-symmetrises an inverse that MEM-OPT uses as computed. A fixed
+            # 1e-6 was a false alarm for float32 inverses on the first seed sweep, and for ill-conditioned float64 cases in
+            # the first thorough run (deviations 1e-6..2e-5): the tolerance is scaled by the conditioning now)
             # stale boundary: no uninterrupted run to compare with. Metamorphic reference: the SAME checkpointed history under
             # another gradient-worker count must give the same gradients (only who computes and who receives differs) - a
             # restore that goes wrong under one strategy only, identically on all its ranks, shows here
@@ -348,9 +354,18 @@ def run_world(rng, res, idx):
                 return
             if not run2.failed():
                 res.count('world_stale_boundary_cross_strategy_checks')
+                from kverif import refmodel as rm
+                kap = 1.0
+                lam = cfg['damping'][1]
+                for n_, (A_, G_) in (run.results[0]['factors'][T - 1] or {}).items():
+                    kap = max(kap, rm.kappa_inverse(A_.double(), G_.double(), lam) if cfg['method'] == 'inverse' else rm.kappa_eigen(A_.double(), G_.double(), lam))
+                # strategies legitimately differ by rounding times conditioning (a symmetric broadcast re-symmetrises an inverse
+                # that MEM-OPT uses as computed): the tolerance C02 uses for two placements, with a floor for the changing factors
+                xtol = max(1e-9, kh.tol_for(cfg, kap, 8, with_factor=False))   # observed on the unchanged tree: at most 1e-3 of this
                 for t in range(c, T):
                     e = kh.rel_err(run.results[0]['grads'][t], run2.results[0]['grads'][t])
-                    if not e <= 1e-6:
+                    res.maxi('max_cross_strategy_err_over_tol', e / xtol)
+                    if not e <= xtol:
                         return res.violation(f'checkpoint at stale boundary {c} on {W} ranks: gradients at step {t} with {cfg["k"]} gradient workers differ from those of the same '
                                              f'checkpointed history with {spec2["cfg"]["k"]} gradient workers by {e:.3e}', case, c=c, k2=spec2['cfg']['k'])
             else:
